@@ -461,6 +461,14 @@ func sigMutations(rng *rand.Rand, c sigCfg, g genReq, sw wireReq) []reqMut {
 		add("path-char-changed", func(m *wireReq) { m.Path = p })
 	}
 	add("path-segment-appended", func(m *wireReq) { m.Path = strings.TrimSuffix(m.Path, "/") + "/extra" })
+	// another raw path with the same percent-decoded form: a segment separator is sent
+	// escaped, i.e. two segments become one (the raw path is what gets forwarded)
+	if i := strings.LastIndexByte(sw.Path, '/'); i > 0 && i < len(sw.Path)-1 {
+		add("path-slash-escaped-two-segments-merged", func(m *wireReq) { m.Path = m.Path[:i] + "%2F" + m.Path[i+1:] })
+	}
+	if i := strings.Index(sw.Path, "%2F"); i >= 0 {
+		add("path-escaped-slash-decoded", func(m *wireReq) { m.Path = m.Path[:i] + "/" + m.Path[i+3:] })
+	}
 	if len(g.Segs) > 0 {
 		add("path-trailing-slash-toggled", func(m *wireReq) {
 			if strings.HasSuffix(m.Path, "/") {
